@@ -116,7 +116,40 @@ def stream_compare(seed, tier):
     return out
 
 
+def stream_refiter(seed, tier):
+    """C11: references and iterators as proxies"""
+    rng = random.Random(seed * 32452843 + 11)
+    cfgs = list(gen.CORPUS)
+    for i in range(12 if tier == "quick" else 90):
+        cfgs.append(gen.random_cfg(rng, "R%d" % i, category=["plain", "fixed", "varying", "mixed"][i % 4], tracked=(i % 2 == 0)))
+    out = []
+    for c in cfgs:
+        for s in range(2 if tier == "quick" else 5):
+            out.append((c, gen.gen_refiter(rng, c, 25 if tier == "quick" else 70)))
+    return out
+
+
+def stream_element(seed, tier):
+    """C12: ContiguousElement value semantics over every allocator-trait combination"""
+    rng = random.Random(seed * 49979687 + 12)
+    cfgs = []
+    base = list(gen.CORPUS)
+    for i in range(24 if tier == "quick" else 120):
+        alloc = ALLOCS[i % len(ALLOCS)]
+        if i < len(base):
+            c = gen.Cfg(base[i].name + "-" + alloc, base[i].params, alloc)
+        else:
+            c = gen.random_cfg(rng, "E%d" % i, category=["plain", "fixed", "varying", "mixed"][i % 4], tracked=(i % 2 == 0), alloc=alloc)
+        cfgs.append(c)
+    out = []
+    for c in cfgs:
+        for s in range(2 if tier == "quick" else 5):
+            out.append((c, gen.gen_element(rng, c, 30 if tier == "quick" else 80)))
+    return out
+
+
 STREAMS = {
+    "C11": stream_refiter, "C12": stream_element,
     "C13": stream_compare, "C14": stream_compare,
     "C01": stream_history, "C02": stream_layout, "C03": stream_layout, "C04": stream_layout, "C05": stream_layout,
     "C06": stream_history, "C10": stream_history, "C16": stream_history, "C18": stream_history,
